@@ -71,6 +71,9 @@ func runC09(c *Ctx) {
 		r.Add("R1", "raw-always-sends", c.Pos(a.Raw.Pos()), c.FuncKey(a.Raw), "Raw enqueues the line on every path", ok, why)
 	}
 
+	// R1 (b): byte identity through Raw - the enqueued value is Raw's parameter cut at CR/LF only (shared with C08.R1)
+	c.enqueueIdentityRule("R1")
+
 	// R2
 	var sender *ssa.Function
 	nRecv := 0
@@ -141,6 +144,13 @@ func runC09(c *Ctx) {
 		r.Add("R3", "recv-to-write:"+c.FuncKey(sender), c.InstrPos(op.In), c.FuncKey(sender), "each dequeued line goes unmodified to exactly one write", ok, why)
 	}
 	r.Anchor("R3", "write function", writeFn != nil)
+	if writeFn != nil {
+		for _, cs := range c.Callers(writeFn) {
+			fn := cs.Parent()
+			ok := fn == sender && kindName(cs) == "call"
+			r.Add("R3", "write-caller:"+c.FuncKey(fn), c.InstrPos(cs), c.FuncKey(fn), "only the send goroutine writes lines to the socket (a second writer would interleave with a pending write)", ok, kindName(cs)+" in "+c.FuncKey(fn))
+		}
+	}
 	// (b) socket writers
 	nW := 0
 	for _, fn := range funcs {
@@ -235,6 +245,38 @@ func runC09(c *Ctx) {
 		})
 	}
 	r.Floor("R4", "stores to the outbound queue field", nSt, 1)
+}
+
+// enqueueIdentityRule: the value sent on the outbound queue is Raw's own
+// parameter truncated at the first CR or LF (identity for CR/LF-free lines).
+func (c *Ctx) enqueueIdentityRule(rule string) {
+	r, a := c.R, c.A
+	fl := c.NewFlow(c.clientFuncs())
+	fl.Run()
+	var crlf bset
+	crlf.add('\r')
+	crlf.add('\n')
+	for _, fn := range c.clientFuncs() {
+		for _, op := range ChanOps(fn) {
+			if op.Kind != "send" || !c.ChanMayBe(op.Chan, a.Out) {
+				continue
+			}
+			var v ssa.Value
+			if s, ok := op.In.(*ssa.Send); ok {
+				v = s.X
+			} else if op.Sel != nil {
+				v = op.Sel.States[op.State].Send
+			}
+			ab := fl.At(v, op.In.Block())
+			ok, why := false, "enqueued value is not Raw's parameter cut at CR/LF (abstract: "+ab.String()+")"
+			if ab.Cut != nil && ab.Cut.Seps == crlf {
+				if pr, isP := ab.Cut.Src.(*ssa.Parameter); isP && (pr.Parent() == a.Raw || c.paramOfVia(pr, a.Raw)) {
+					ok, why = true, "value = rawline cut at the first of {CR,LF}: unchanged for CR/LF-free lines"
+				}
+			}
+			r.Add(rule, "enqueue-identity:"+c.FuncKey(fn), c.InstrPos(op.In), c.FuncKey(fn), "a CR/LF-free line is enqueued byte for byte", ok, why)
+		}
+	}
 }
 
 // OncePerFrom: `to` executes exactly once for each execution of the receive
